@@ -650,12 +650,14 @@ fn gene_generator_jobs(jobs: &mut Vec<Job>) {
             let label = format!("default gene generator over {n_instr} instructions");
             jobs.push(job(label.clone(), move |n, seed| {
                 let mut rng = StdRng::seed_from_u64(seed);
-                let gg = instrs
-                    .clone()
-                    .into_distribution()
-                    .map_err(|e| Fail::new("GeneGenerator/construction", e.to_string()))?
-                    .into_gene_generator();
-                let genes: Vec<PushGene> = (0..n).map(|_| gg.sample(&mut rng)).collect();
+                let dist = instrs.clone().into_distribution().map_err(|e| Fail::new("GeneGenerator/construction", e.to_string()))?;
+                let genes: Vec<PushGene> = if n_instr % 2 == 0 {
+                    let gg = dist.into_gene_generator();
+                    (0..n).map(|_| gg.sample(&mut rng)).collect()
+                } else {
+                    let gg = GeneGenerator::with_uniform_close_probability(dist);
+                    (0..n).map(|_| gg.sample(&mut rng)).collect()
+                };
                 let c = f64::from(1.0f32 / (n_instr as f32 + 1.0));
                 gene_stats(&label, &genes, &instrs, c, &uniform)
             }));
@@ -692,12 +694,22 @@ fn gene_generator_jobs(jobs: &mut Vec<Job>) {
             let label = format!("gene generator with close probability {close} over {n_instr} instructions");
             jobs.push(job(label.clone(), move |n, seed| {
                 let mut rng = StdRng::seed_from_u64(seed);
-                let gg = instrs
-                    .clone()
-                    .into_distribution()
-                    .map_err(|e| Fail::new("GeneGenerator/construction", e.to_string()))?
-                    .into_gene_generator_with_close_probability(close);
-                let genes: Vec<PushGene> = (0..n).map(|_| gg.sample(&mut rng)).collect();
+                let dist = instrs.clone().into_distribution().map_err(|e| Fail::new("GeneGenerator/construction", e.to_string()))?;
+                // the constructor flavours must all apply the same probability: by value, borrowed, and `new` directly
+                let genes: Vec<PushGene> = match (n_instr + (close * 100.0) as usize) % 3 {
+                    0 => {
+                        let gg = dist.into_gene_generator_with_close_probability(close);
+                        (0..n).map(|_| gg.sample(&mut rng)).collect()
+                    }
+                    1 => {
+                        let gg = dist.to_gene_generator_with_close_probability(close);
+                        (0..n).map(|_| gg.sample(&mut rng)).collect()
+                    }
+                    _ => {
+                        let gg = GeneGenerator::new(close, &dist);
+                        (0..n).map(|_| gg.sample(&mut rng)).collect()
+                    }
+                };
                 gene_stats(&label, &genes, &instrs, f64::from(close), &uniform)
             }));
         }
